@@ -534,44 +534,36 @@ fn flip_between_words(run: &Run) {
             let opts = [Opts::from_bits(layout, 0b110), Opts::from_bits(layout, 0x7ff & !(1 << 9)), Opts::from_bits(layout, 0b111 | (1 << 8) | (1 << 10))][oi];
             let first = firsts[layout][fi];
             for bit in 0u8..13 {
-                for second in seconds[layout] {
-                    for last_call in 0..3u8 {
-                        let sb = Sandbox::new();
-                        let mut it = Interp::new(opts, &sb).map_err(|p| Failure::new(panic_kind(&p.info), format!("construction: {}", p.info), json!({"opts": opts.letters()})))?;
-                        let mut ops: Vec<AbsOp> = vec![];
-                        let text = |t: &str| AbsOp::Text { keys: t.chars().map(|c| (keys().code_for(c), 0)).collect(), sel: SelPick::FrontEnd };
-                        match term {
-                            // a learned non-first choice, shown again, then taken as it is
-                            4 => ops.extend([text(first), AbsOp::Commit { frac: 0xffff }, text(first), AbsOp::Commit { frac: 0x8000 }]),
-                            _ => ops.push(text(first)),
+                for second in seconds[layout].iter().take(if bit == 1 || bit == 2 || bit >= 11 { 4 } else { 2 }) {
+                    let sb = Sandbox::new();
+                    let mut it = Interp::new(opts, &sb).map_err(|p| Failure::new(panic_kind(&p.info), format!("construction: {}", p.info), json!({"opts": opts.letters()})))?;
+                    let mut ops: Vec<AbsOp> = vec![];
+                    let text = |t: &str| AbsOp::Text { keys: t.chars().map(|c| (keys().code_for(c), 0)).collect(), sel: SelPick::FrontEnd };
+                    match term {
+                        // a learned non-first choice, shown again, then taken as it is
+                        4 => ops.extend([text(first), AbsOp::Commit { frac: 0xffff }, text(first), AbsOp::Commit { frac: 0x8000 }]),
+                        _ => ops.push(text(first)),
+                    }
+                    ops.push(match term {
+                        0 => AbsOp::Commit { frac: 0 },
+                        1 => AbsOp::Commit { frac: 0xffff },
+                        2 => AbsOp::Finish,
+                        3 => AbsOp::CtrlBackspace,
+                        _ => AbsOp::Finish,
+                    });
+                    ops.push(AbsOp::Flip { bit });
+                    // the second word, ended in every way (the first commit is the one that meets what the first word left)
+                    ops.extend([text(second), AbsOp::Commit { frac: 0 }, text(second), AbsOp::Commit { frac: 0xffff }, text(second), AbsOp::Backspace, text(second), AbsOp::Commit { frac: 0x8000 }]);
+                    st.evals(1);
+                    for op in &ops {
+                        if let Err(p) = it.run_op(op, &mut |_| Ok(())) {
+                            return Err(Failure::new(panic_kind(&p.info), format!("event #{} ({}) : {}", p.at, gen::ev_to_string(&it.trace[p.at]), p.info), gen::trace_json(&opts, &it.trace)));
                         }
-                        ops.push(match term {
-                            0 => AbsOp::Commit { frac: 0 },
-                            1 => AbsOp::Commit { frac: 0xffff },
-                            2 => AbsOp::Finish,
-                            3 => AbsOp::CtrlBackspace,
-                            _ => AbsOp::Finish,
-                        });
-                        ops.push(AbsOp::Flip { bit });
-                        ops.push(text(second));
-                        ops.push(match last_call {
-                            0 => AbsOp::Commit { frac: 0 },
-                            1 => AbsOp::Commit { frac: 0xffff },
-                            _ => AbsOp::Backspace,
-                        });
-                        ops.push(text(second));
-                        ops.push(AbsOp::Commit { frac: 0x8000 });
-                        st.evals(1);
-                        for op in &ops {
-                            if let Err(p) = it.run_op(op, &mut |_| Ok(())) {
-                                return Err(Failure::new(panic_kind(&p.info), format!("event #{} ({}) : {}", p.at, gen::ev_to_string(&it.trace[p.at]), p.info), gen::trace_json(&opts, &it.trace)));
-                            }
-                        }
-                        gen::journal::end();
-                        if bit == 1 || bit == 2 {
-                            let t = it.trace.clone();
-                            st.nontrivial(hash_of(&(opts.letters(), &t)), || json!({"opts": opts.letters(), "events": t.iter().map(gen::ev_to_string).collect::<Vec<_>>()}));
-                        }
+                    }
+                    gen::journal::end();
+                    if bit == 1 || bit == 2 {
+                        let t = it.trace.clone();
+                        st.nontrivial(hash_of(&(opts.letters(), &t)), || json!({"opts": opts.letters(), "events": t.iter().map(gen::ev_to_string).collect::<Vec<_>>()}));
                     }
                 }
             }
